@@ -1,8 +1,11 @@
 #!/bin/sh
-# build the conformance harness offline and parse the specification
+# Builds the conformance harness offline (both profiles), parses every specification module and runs
+# the binding self-test (a corrupted trace must be rejected).  Everything comes from files on disk.
 set -e
-cd /verif/harness
-cargo build --profile checked 2>&1 | tail -2
-cd /verif/spec
-for m in AbyLayout AbyStore AbyScan AbyMap; do tla-sany $m.tla >/dev/null; done
+cd "$(dirname "$(readlink -f "$0")")"
+export CARGO_NET_OFFLINE=true
+(cd harness && cargo build --offline --profile checked 2>&1 | tail -1 && cargo build --offline --profile fast 2>&1 | tail -1)
+(cd spec && for m in AbyLayout AbyHash AbyCodec AbyMap AbyBulk AbyStore AbyScan AbyBuf AbyDb AbyTrace MCStore MCScan MCDb MCBulk MCCodec MCHash MCLayout; do
+   tla-sany $m.tla > /tmp/sany_$$.log 2>&1 || { cat /tmp/sany_$$.log; echo "SANY failed on $m"; exit 2; }; done; rm -f /tmp/sany_$$.log)
+bin/selftest | tail -9
 echo setup ok
